@@ -465,7 +465,7 @@ func runC18(p *load.Program, r *core.Report) {
 		errIdx := errResultIndex(f)
 		bad := reaches([]Point{{f.Blocks[0], 0}}, func(i ssa.Instruction) bool { return callsNamed(i, "RouteTerminateEvent") }, func(i ssa.Instruction) bool {
 			ret, ok := i.(*ssa.Return)
-			return ok && errKind(ret.Results[errIdx]) == "nil"
+			return ok && maybeNilResult(ret, errIdx)
 		})
 		if bad == nil {
 			r.OK(rule3, key2, fn, p.Pos(f.Pos()), "a successful unregister notifies every subscriber (RouteTerminateEvent)", "all successful paths")
@@ -498,7 +498,7 @@ func spilledParam(v ssa.Value) *ssa.Parameter {
 // sends MessageEventStop when it reaches zero.
 func c18CounterFollowsRelations(a *Anchors, r *core.Report) {
 	rule := "C18.V4 counter-follows-relations"
-	r.Floor(rule, 1)
+	r.Floor(rule, 2)
 	p := a.P
 	f := p.Func("node", a.NodeT.Obj().Name(), "unregisterProcess")
 	key := "C18.V4|unregisterProcess"
@@ -517,26 +517,53 @@ func c18CounterFollowsRelations(a *Anchors, r *core.Report) {
 		r.Bad(rule, key, fname(f), p.Pos(f.Pos()), inst, "CleanupConsumer is not called")
 		return
 	}
-	countsOut := func(g *ssa.Function) bool {
-		if g == nil || len(g.Blocks) == 0 {
+	countsOut := func(g0 *ssa.Function) bool {
+		if g0 == nil || len(g0.Blocks) == 0 {
 			return false
 		}
 		dec, asEvent, stop := false, false, false
-		eachInstr(g, func(in ssa.Instruction) {
-			if ta, ok := in.(*ssa.TypeAssert); ok && namedOf(ta.AssertedType) == "gen.Event" {
-				asEvent = true
+		// the function and the helpers of the same package it calls (two levels)
+		fns := []*ssa.Function{g0}
+		for lvl := 0; lvl < 2; lvl++ {
+			for _, g := range append([]*ssa.Function(nil), fns...) {
+				eachInstr(g, func(in ssa.Instruction) {
+					if cc := callCommon(in); cc != nil {
+						if sf := staticCallee(cc); sf != nil && sf.Pkg == g0.Pkg && len(sf.Blocks) > 0 {
+							dup := false
+							for _, x := range fns {
+								if x == sf {
+									dup = true
+								}
+							}
+							if !dup {
+								fns = append(fns, sf)
+							}
+						}
+					}
+				})
 			}
-			if cc := callCommon(in); cc != nil && isAtomic(cc) && strings.HasPrefix(staticCallee(cc).Name(), "Add") && len(cc.Args) == 2 {
-				if _, path, okp := fieldPath(cc.Args[0]); okp && len(path) > 0 && path[len(path)-1] == "consumers" {
-					if c, okc := constInt(cc.Args[1]); okc && c == -1 {
-						dec = true
+		}
+		for _, g := range fns {
+			eachInstr(g, func(in ssa.Instruction) {
+				if ta, ok := in.(*ssa.TypeAssert); ok && namedOf(ta.AssertedType) == "gen.Event" {
+					asEvent = true
+				}
+				if cc := callCommon(in); cc != nil && isAtomic(cc) && strings.HasPrefix(staticCallee(cc).Name(), "Add") && len(cc.Args) == 2 {
+					if _, path, okp := fieldPath(cc.Args[0]); okp && len(path) > 0 && path[len(path)-1] == "consumers" {
+						// a negative amount: the constant -1, or the negation of a count
+						if c, okc := constInt(cc.Args[1]); okc && c < 0 {
+							dec = true
+						}
+						if u, oku := cc.Args[1].(*ssa.UnOp); oku && u.Op == token.SUB {
+							dec = true
+						}
 					}
 				}
-			}
-			if al, ok := in.(*ssa.Alloc); ok && strings.HasSuffix(al.Type().String(), "gen.MessageEventStop") {
-				stop = true
-			}
-		})
+				if al, ok := in.(*ssa.Alloc); ok && strings.HasSuffix(al.Type().String(), "gen.MessageEventStop") {
+					stop = true
+				}
+			})
+		}
 		return dec && asEvent && stop
 	}
 	handled := map[int]bool{}
@@ -552,6 +579,55 @@ func c18CounterFollowsRelations(a *Anchors, r *core.Report) {
 			}
 			if countsOut(staticCallee(cc)) {
 				handled[idx] = true
+			}
+		}
+	}
+	// the same for subscribers that disappear with their node
+	{
+		key2 := "C18.V4|RouteNodeDown"
+		inst2 := "subscribers that lived on a lost node are counted out of the local events they were subscribed to"
+		var down *ssa.Function
+		for _, g := range funcsOfPkgs(p, "node") {
+			if g.Parent() == nil && g.Name() == "RouteNodeDown" && recvIs(g, a.NodeT) {
+				down = g
+			}
+		}
+		if down == nil {
+			r.Unk(rule, key2, "", "", inst2, "RouteNodeDown not found")
+		} else {
+			adjusts := false
+			seen := map[*ssa.Function]bool{}
+			var walk func(g *ssa.Function, d int)
+			walk = func(g *ssa.Function, d int) {
+				if g == nil || seen[g] || d > 3 || len(g.Blocks) == 0 {
+					return
+				}
+				seen[g] = true
+				eachInstr(g, func(in ssa.Instruction) {
+					cc := callCommon(in)
+					if cc == nil {
+						return
+					}
+					if isAtomic(cc) && len(cc.Args) == 2 {
+						if _, path, okp := fieldPath(cc.Args[0]); okp && len(path) > 0 && path[len(path)-1] == "consumers" {
+							adjusts = true
+						}
+					}
+					if sf := staticCallee(cc); sf != nil && sf.Pkg != nil && strings.HasSuffix(sf.Pkg.Pkg.Path(), "/node") {
+						walk(sf, d+1)
+					}
+					for _, arg := range cc.Args {
+						if mc, ok := arg.(*ssa.MakeClosure); ok {
+							walk(mc.Fn.(*ssa.Function), d+1)
+						}
+					}
+				})
+			}
+			walk(down, 0)
+			if adjusts {
+				r.OK(rule, key2, fname(down), p.Pos(down.Pos()), inst2, "the node-down path adjusts the subscriber counter")
+			} else {
+				r.Bad(rule, key2, fname(down), p.Pos(down.Pos()), inst2, "CleanupNode drops the relations of consumers on the lost node without a trace and nothing on the node-down path touches the subscriber counter: when the last subscriber of a notifying event disappears with its node the producer is never told, and the next subscriber is not announced as the first")
 			}
 		}
 	}
